@@ -363,20 +363,28 @@ func c29Run(x *explore.Ctx)      { c29RunWith(x, c29Schedules(x.Tier), false) }
 func c29FirstRun(x *explore.Ctx) { c29RunWith(x, c29FirstSchedules(x.Tier), true) }
 
 func c29RunWith(x *explore.Ctx, scheds []string, first bool) {
+	// the case index also fixes whether positions 0 and 1 carry a live query (keeps cases small)
+	pre := x.Case % 4
+	ci := x.Case / 4
 	specs := c29Specs(x.Tier)
-	sched := scheds[x.Case/len(specs)]
+	sched := scheds[ci/len(specs)]
 	ops := strings.Fields(sched)
-	spec := specs[x.Case%len(specs)]
+	spec := specs[ci%len(specs)]
 	var final map[fixture.RowKey]types.Counters
 	var w *c29World
 	asked := 0
 	leak := mcBubble(func() {
 		final, w = c29Play(x, first, ops, &spec, func(pos int) bool {
-			if x.Choose(2, fmt.Sprintf("live query at %d", pos)) == 1 {
-				asked++
-				return true
+			var q bool
+			if pos < 2 {
+				q = pre&(1<<pos) != 0
+			} else {
+				q = x.Choose(2, fmt.Sprintf("live query at %d", pos)) == 1
 			}
-			return false
+			if q {
+				asked++
+			}
+			return q
 		})
 	})
 	if x.Failed() {
@@ -425,7 +433,7 @@ func init() {
 	register("C29.first", &explore.Scenario{
 		ID: "C29", Name: "live queries before the interface's first write-out", Level: "model_checking",
 		Rule:  "cases = schedules {a4 | a4 b6 | b6 d6 e4} without a write-out x the query specs of C29; every subset of positions carries a live query; a query over flows that exist in memory must not fail and must return the reference rows; non-trivial = live queries with flows in memory",
-		Cases: func(t string) int { return len(c29FirstSchedules(t)) * len(c29Specs(t)) },
+		Cases: func(t string) int { return len(c29FirstSchedules(t)) * len(c29Specs(t)) * 4 },
 		Bound: func(string) int { return 0 },
 		Run:   c29FirstRun, Setup: c29Setup,
 		Assumptions: []string{"as C29; the database directory is empty until the closing write-out"},
@@ -433,7 +441,7 @@ func init() {
 	register("C29", &explore.Scenario{
 		ID: "C29", Name: "live queries at every subset of positions of a packet / write-out schedule", Level: "model_checking",
 		Rule:  "cases = schedule x query spec. Schedules: <=4 packets (mixed IPv4/IPv6 alphabet of C21; a4/c4 are the two directions of one conversation) and <=2 write-outs (quick: 8 hand-picked; thorough: every placement of 0-2 write-outs into every prefix of one packet sequence and into a second full sequence, 73 schedules). Query specs: attribute set {sip,dip,dport,proto | sip,dip} x conditions {none, sip=, dip=, snet=, dnet=, snet|sip, snet&dip, dnet|dnet (thorough also proto=, sip|sip v4/v6, !dnet, dport|dip)}, thorough also {dport,proto | sip} x {none, snet=}. Per case EVERY subset of the schedule's positions (before each step and at the end) carries a live query through the real QueryRunner with WithLiveData; rows are compared with a Go-map aggregation of stored blocks + in-memory flows under the condition's reference predicate; after a closing write-out a raw+time query over the database must equal the run without live queries and the reference blocks; non-trivial = live queries answered while flows were in memory, distinct by (stored/memory class, query, counts, condition)",
-		Cases: func(t string) int { return len(c29Schedules(t)) * len(c29Specs(t)) },
+		Cases: func(t string) int { return len(c29Schedules(t)) * len(c29Specs(t)) * 4 },
 		Bound: func(string) int { return 0 },
 		Run:   c29Run, Setup: c29Setup,
 		Assumptions: []string{
